@@ -427,19 +427,26 @@ def _places_in_term(t):
     return out
 
 
-def block_field_accesses(body, bb, user_only=True):
-    """[(adt, field, line)] of all field projections touched in block bb"""
+def block_field_accesses(body, bb, user_only=True, reads_only=False):
+    """[(adt, field, line)] of all field projections touched in block bb (reads_only: the field an assignment or a call
+    destination overwrites does not count)"""
     out = []
+
+    def fields_(p, written):
+        fs = place_fields(p)
+        if reads_only and written and fs and isinstance(p[-1], list) and p[-1][0] == '.':
+            fs = fs[:-1]
+        return fs
     for s in body.stmts(bb):
         if user_only and s.get('x', '').startswith('m:'):
             continue
         for p in _places_in_stmt(s):
-            for adt, f in place_fields(p):
+            for adt, f in fields_(p, p is s.get('lhs')):
                 out.append((adt, f, s.get('ln')))
     t = body.term(bb)
     if not (user_only and t.get('x', '').startswith('m:')):
         for p in _places_in_term(t):
-            for adt, f in place_fields(p):
+            for adt, f in fields_(p, p is t.get('dest')):
                 out.append((adt, f, t.get('ln')))
     return out
 
